@@ -76,10 +76,202 @@ def local_names(fn_node):
     return names
 
 
+def _stores(stmts):
+    return {n.id for st in stmts for n in ast.walk(st) if isinstance(n, ast.Name) and
+            isinstance(n.ctx, (ast.Store, ast.Del))}
+
+
+def _txt(n):
+    return " ".join(ast.unparse(n).split())
+
+
+class _Shape(ast.NodeTransformer):
+    """Statement-level spellings that mean the same: iteration over a dict / its keys() / its items(), list growth by
+    `+=`, `+= list(..)` or extend, a default followed by a conditional overwrite versus if/else."""
+
+    def __init__(self, list_locals):
+        self.list_locals = list_locals
+
+    def visit_For(self, node):
+        it = node.iter
+        if isinstance(it, ast.Call) and isinstance(it.func, ast.Attribute) and not it.args and not it.keywords:
+            d = it.func.value
+            dt = _txt(d)
+            touched = any(isinstance(n, (ast.Subscript, ast.Attribute)) and isinstance(n.ctx, (ast.Store, ast.Del))
+                          and _txt(n).startswith(dt) for st in node.body for n in ast.walk(st)) or \
+                any(isinstance(n, ast.Name) and isinstance(n.ctx, ast.Store) and n.id == dt
+                    for st in node.body for n in ast.walk(st))
+            simple = not any(isinstance(n, (ast.Call, ast.Lambda)) for n in ast.walk(d))
+            if it.func.attr == "keys" and simple:
+                node.iter = d
+            elif it.func.attr == "items" and simple and not touched and isinstance(node.target, ast.Tuple) and \
+                    len(node.target.elts) == 2 and all(isinstance(e, ast.Name) for e in node.target.elts):
+                k, v = node.target.elts[0].id, node.target.elts[1].id
+                if k != v and v not in _stores(node.body) and k not in _stores(node.body):
+                    class R(ast.NodeTransformer):
+                        def visit_Name(self, n):
+                            if n.id == v and isinstance(n.ctx, ast.Load):
+                                return ast.Subscript(value=copy.deepcopy(d), slice=ast.Name(id=k, ctx=ast.Load()),
+                                                     ctx=ast.Load())
+                            return n
+                    node.body = [R().visit(st) for st in node.body]
+                    node.target = ast.Name(id=k, ctx=ast.Store())
+                    node.iter = d
+        self.generic_visit(node)
+        return node
+
+    def visit_AugAssign(self, node):
+        self.generic_visit(node)
+        if isinstance(node.op, ast.Add):
+            v = node.value
+            wrapped = isinstance(v, ast.Call) and _txt(v.func) == "list" and len(v.args) == 1 and not v.keywords
+            if wrapped or isinstance(node.target, ast.Name) and node.target.id in self.list_locals:
+                tgt = copy.deepcopy(node.target)
+                for n in ast.walk(tgt):
+                    if hasattr(n, "ctx"):
+                        n.ctx = ast.Load()
+                call = ast.Call(func=ast.Attribute(value=tgt, attr="extend", ctx=ast.Load()),
+                                args=[v.args[0] if wrapped else v], keywords=[])
+                return ast.copy_location(ast.Expr(value=call), node)
+        return node
+
+
+def _default_then_overwrite(block):
+    """`T = A` directly followed by `if C: T = B` (no else)  ->  `if C: T = B[T := A] else: T = A`"""
+    out = []
+    i = 0
+    while i < len(block):
+        st = block[i]
+        nxt = block[i + 1] if i + 1 < len(block) else None
+        if isinstance(st, ast.Assign) and len(st.targets) == 1 and isinstance(st.targets[0], ast.Name) and \
+                isinstance(nxt, ast.If) and not nxt.orelse and len(nxt.body) == 1 and \
+                isinstance(nxt.body[0], ast.Assign) and len(nxt.body[0].targets) == 1 and \
+                isinstance(nxt.body[0].targets[0], ast.Name) and nxt.body[0].targets[0].id == st.targets[0].id:
+            t = st.targets[0].id
+            from ..model import _pure_expr
+            reads_t = any(isinstance(n, ast.Name) and n.id == t for n in ast.walk(nxt.test))
+            if not reads_t and _pure_expr(st.value):
+                a = st.value
+
+                class R(ast.NodeTransformer):
+                    def visit_Name(self, n):
+                        return copy.deepcopy(a) if n.id == t and isinstance(n.ctx, ast.Load) else n
+                b = R().visit(copy.deepcopy(nxt.body[0].value))
+                new = ast.If(test=nxt.test,
+                             body=[ast.Assign(targets=[ast.Name(id=t, ctx=ast.Store())], value=b, lineno=0)],
+                             orelse=[ast.Assign(targets=[ast.Name(id=t, ctx=ast.Store())], value=copy.deepcopy(a),
+                                                lineno=0)])
+                out.append(ast.copy_location(new, nxt))
+                i += 2
+                continue
+        out.append(st)
+        i += 1
+    return out
+
+
+def _adjacent_temporaries(block, uses_outside):
+    """`t = E` directly followed by the only statement that reads t (once, outside any loop / lambda of it)"""
+    changed = True
+    while changed:
+        changed = False
+        for i in range(len(block) - 1):
+            st, nxt = block[i], block[i + 1]
+            if not (isinstance(st, ast.Assign) and len(st.targets) == 1 and isinstance(st.targets[0], ast.Name)):
+                continue
+            t = st.targets[0].id
+            if isinstance(nxt, (ast.For, ast.While, ast.If, ast.With, ast.Try, ast.FunctionDef)):
+                head = nxt.test if isinstance(nxt, (ast.If, ast.While)) else (nxt.iter if isinstance(nxt, ast.For)
+                                                                             else None)
+                if head is None:
+                    continue
+                inner = [n for n in ast.walk(nxt) if isinstance(n, ast.Name) and n.id == t]
+                hits = [n for n in ast.walk(head) if isinstance(n, ast.Name) and n.id == t]
+                if len(inner) != 1 or len(hits) != 1:
+                    continue
+                scope = head
+            else:
+                hits = [n for n in ast.walk(nxt) if isinstance(n, ast.Name) and n.id == t]
+                if len(hits) != 1 or not isinstance(hits[0].ctx, ast.Load):
+                    continue
+                if any(isinstance(n, (ast.Lambda, ast.ListComp, ast.SetComp, ast.DictComp, ast.GeneratorExp))
+                       and any(x is hits[0] for x in ast.walk(n)) for n in ast.walk(nxt)):
+                    continue
+                scope = nxt
+            if uses_outside(t, (st, nxt)):
+                continue
+            val = st.value
+
+            class R(ast.NodeTransformer):
+                def visit_Name(self, n):
+                    return copy.deepcopy(val) if n is hits[0] else n
+            if scope is nxt:
+                block[i + 1] = R().visit(nxt)
+            elif isinstance(nxt, ast.For):
+                nxt.iter = R().visit(nxt.iter)
+            else:
+                nxt.test = R().visit(nxt.test)
+            del block[i]
+            changed = True
+            break
+    return block
+
+
+def _reshape(fn_node):
+    lists = set()
+    for n in ast.walk(fn_node):
+        if isinstance(n, ast.Assign) and len(n.targets) == 1 and isinstance(n.targets[0], ast.Name) and \
+                (isinstance(n.value, ast.List) or isinstance(n.value, ast.Call) and _txt(n.value.func) == "list"):
+            lists.add(n.targets[0].id)
+    for n in ast.walk(fn_node):
+        if isinstance(n, ast.Assign) and len(n.targets) == 1 and isinstance(n.targets[0], ast.Name) and \
+                n.targets[0].id in lists and not (isinstance(n.value, ast.List) or isinstance(n.value, ast.Call) and
+                                                  _txt(n.value.func) == "list"):
+            lists.discard(n.targets[0].id)
+    fn_node = _Shape(lists).visit(fn_node)
+
+    def all_uses(t, skip):
+        total = sum(1 for n in ast.walk(fn_node) if isinstance(n, ast.Name) and n.id == t)
+        here = sum(1 for s in skip for n in ast.walk(s) if isinstance(n, ast.Name) and n.id == t)
+        return total != here
+
+    def blocks(node):
+        for fld in ("body", "orelse", "finalbody"):
+            b = getattr(node, fld, None)
+            if isinstance(b, list) and b and isinstance(b[0], ast.stmt):
+                yield fld, b
+    todo = [fn_node]
+    while todo:
+        node = todo.pop()
+        for fld, b in blocks(node):
+            b = _default_then_overwrite(b)
+            b = _adjacent_temporaries(b, all_uses)
+            setattr(node, fld, b)
+            todo.extend(b)
+    return fn_node
+
+
 def normal_form(fn_node, rename_calls=None) -> str:
+    from .semantic import sem_norm
     node = copy.deepcopy(fn_node)
+    node.decorator_list = []
     t = _Alpha(local_names(node), rename_calls or {})
     node = t.visit(node)
+    node = _reshape(node)
+    node = sem_norm(node)
+    # names in order of first appearance of the final form
+    order = {}
+
+    class Renum(ast.NodeTransformer):
+        def visit_Name(self, n):
+            if n.id.startswith("v") and n.id[1:].isdigit():
+                n.id = order.setdefault(n.id, "w%d" % len(order))
+            return n
+
+        def visit_arg(self, n):
+            if n.arg.startswith("v") and n.arg[1:].isdigit():
+                n.arg = order.setdefault(n.arg, "w%d" % len(order))
+            return n
+    node = Renum().visit(node)
     ast.fix_missing_locations(node)
     return ast.unparse(node)
 
